@@ -31,7 +31,7 @@ CHECKS["C08"] = dict(
     text="Per (unit pair, rep pair) instance the solver decides for ALL operand pairs (x, y): if the exactly scaled operands x*k1, y*k2 fit "
          "the common rep then the six comparisons (and C++20 <=>) equal the exact order, + and - return exactly x*k1 +/- y*k2 with the raw operator's "
          "trap condition, and % equals the raw % of the scaled operands; k1, k2 come from an independent gcd-of-rationals model.",
-    note=TB + "; unit and rep pairs enumerated (equal signedness, integral); floating reps not solver-claimed.")
+    note=TB + "; unit and rep pairs enumerated (integral pairs of equal signedness, incl. sub-int and mixed-width pairs; more pairs in thorough); floating reps (float/double, incl. float <=>): each operator equals the raw operator applied to the operands scaled by a constant within 4 ulp of the exact factor - the few-ulp bound itself is the closed constant check, not a solver statement about real arithmetic.")
 CHECKS["C09"] = dict(
     category="model_checking",
     technique="bounded symbolic execution of clang LLVM IR of the real templates, SMT (z3/cvc5, integer emission) against an exact affine model",
@@ -85,8 +85,8 @@ CHECKS["C12"] = dict(
     technique="bounded symbolic execution of clang LLVM IR (unsigned-wrap traps on), SMT: integer emission with quotient/remainder abstraction (z3/cvc5 NIA) and bit-vector emission at reduced width",
     text="At full 64-bit width and for ALL inputs under the documented preconditions: add_mod, sub_mod, half_mod_odd return the exact residue with no intermediate wrap; decompose(n) = (s, d) with n == d<<s, d odd "
          "(unwind 64 + unwinding assertion); mul_mod: one inductive step (recursive call replaced by its contract): call-site precondition, strict decrease, no wrap/div-by-zero, result < n, result formula, "
-         "and a*b == result + Q*n with a witness Q; the same step bit-precisely at W=5/6 bits without hints. Factorisation/primality read-outs for adversarial numbers are closed compile-time facts.",
-    note=TB + "; primality/factor-finder exactness for every 64-bit n, pow_mod, gcd, jacobi, Lucas are NOT claimed (outside bounded symbolic execution); reduced-width results are about the re-interpreted IR.")
+         "and a*b == result + Q*n with a witness Q; the same step bit-precisely at W=5/6 bits without hints; is_perfect_square(n) is false and trap-free for ALL 64-bit odd n that are non-residues mod 8 or mod 3/5/7 (Newton loop unwound 5 quick / 24 thorough, unwinding is a precondition); gcd(a,b) at 6 bits (quick) / 8 bits (thorough) of the re-interpreted IR is the greatest common divisor for ALL a,b. Factorisation/primality read-outs for adversarial numbers (all base-2 strong pseudoprimes below 2^21 and a dense tail, Carmichael numbers, squares that wrap, 64-bit semiprimes) are closed compile-time facts.",
+    note=TB + "; primality/factor-finder exactness for every 64-bit n, pow_mod, 64-bit gcd, jacobi, Lucas are NOT claimed (outside bounded symbolic execution); reduced-width results are about the re-interpreted IR and are flagged as such in evidence.")
 CHECKS["C14"] = dict(
     category="translation_validation",
     technique="solver equivalence (SMT over clang LLVM IR) of Au product/quotient/power kernels with raw-operator / std-function reference kernels in the same TU; closed unit facts vs model",
@@ -124,13 +124,13 @@ CHECKS["C18"] = dict(
     category="model_checking",
     technique="bounded symbolic execution of clang LLVM IR: digit-count loops unwound (20) for all 64-bit inputs; label arrays read at a symbolic index (SMT ite-chains over constant data) vs an independent grammar model",
     text="string_size_unsigned(x) == number of decimal digits for ALL x < 2^64 and string_size(x) for all x > INT64_MIN; for a grid of unit expressions, IToA/UIToA arguments and magnitude labels: for ALL indices i <= len the "
-         "i-th character equals the independently generated expected label, the terminator is NUL and sizeof == len+1; labels of distinct units differ (closed).",
-    note=TB + "; operator<< (iostream virtual dispatch, locale) is outside; unit expressions enumerated.")
+         "i-th character equals the independently generated expected label, the terminator is NUL and sizeof == len+1; labels of distinct units differ (closed); operator<< on Quantity/QuantityPoint over a recording stream stub: for ALL stored values the emitted event trace is (value inserted with the promoted arithmetic type - never a char insertion for 8-bit reps -, then one space, then the label), equal to the hand-written twin.",
+    note=TB + "; the real std::ostream (virtual dispatch, locale, digit formatting) is replaced by the recording stub and is outside; unit expressions enumerated.")
 CHECKS["C20"] = dict(
     category="translation_validation",
     technique="solver equivalence (SMT over clang LLVM IR) of each kernel lowered in several build configurations against the c++14 multi-header baseline",
     text="A seeded subset of the other checks' kernels is lowered at c++14 (baseline), c++17, c++20, and against generated single-file headers (with and without I/O; thorough: random unit subset, double inclusion) "
          "with no other Au path on the include line; every (kernel, configuration) pair is proved equivalent to the baseline for ALL inputs (same bits, same trap condition); accept/reject parity per kernel and "
-         "'every public header compiles on its own (twice)' are observed as lowering-stage facts.",
-    note=TB + "; clang only (gcc has no IR to encode: the gcc axis is covered only by the differential execution of g++-built kernels in translator validation); fwd-declaration agreement outside.")
+         "'every public header compiles on its own (twice)' are observed as lowering-stage facts; container-level comparisons equal the raw-rep comparison in every configuration; closed facts (labels, sizes, traits, constexpr values) are required identical between the clang and the g++ build of the same kernels in every -std.",
+    note=TB + "; the symbolic half is clang only (gcc has no IR to encode): the gcc axis is covered by closed-fact parity (g++-built kernels executed natively) and the differential execution in translator validation, which is sampling, not a solver verdict; fwd-declaration agreement is observed only as: the _fwd header followed by the definition compiles.")
 NA["C01"] = NA["C01"]
